@@ -64,6 +64,11 @@ CLAIMED = {
         'Output.unprocessed writes iff --supress is off; into_sink = parse_all then cleanup (close notices only). The check found a genuine defect (a request unknown to a known interface was shown as an error text, two items for one line) which is repaired in /repo.',
    note='Assumed: readline delivers the lines of the input in order ("" only at end); which texts are message lines is the opaque predicate is_wl_line (C01 territory); the sink is the ConnectionManager and rejects (RuntimeError) only messages of ill-formed histories, e.g. delete_id of an unknown id - such a message is counted as forwarded AND reported (stated in the invariant, ghost counter n_rej). An AssertionError inside the sink (malformed bind) switches decoding off: outside the well-formed streams of the property.',
    technique='contract-based deductive verification: loop invariant over ghost traces and counters, exceptional postconditions; native replay; z3'),
+ 'C07': dict(level='proof', design='6.C07',
+   text='Contracts proved on the real look-ups: get_arg / get_arg_name / look_up_interface return the k-th argument of the message in the loaded description (ordered-dict model), None exactly for wl_registry.bind and unknown interfaces, RuntimeError exactly for an unknown message / position of a known interface; get_enum resolves a bare name in the message own interface and a dotted path in the named one; load never forgets an interface and never lowers a stored version; Arg.*.resolve only decorate. '
+        'Plus exhaustive ground evaluation (not counted as proof) of the real loader and look-ups over all 136 shipped XML files against an independent oracle: every interface x message x argument position, every enum value / zero / out-of-range / 2- and 3-unions of bitfield entries, every load order of the 109 multiply-described interfaces.',
+   note='look_up_enum own loop is covered by the ground evaluation only (its contract towards callers is assumed); ElementTree and int(text, 0) are assumed; parse_* structural functions are exercised by the ground evaluation, not proved.',
+   technique='contract-based deductive verification of the look-up functions + exhaustive ground evaluation over the shipped protocol data; z3'),
 }
 
 NA_REASON = 'not yet built in this session (machinery under construction); see DESIGN.md section 6'
